@@ -37,15 +37,62 @@ static void one_case(const u8* in, size_t n, int level)
     free(src); free(dst); free(chk);
 }
 
+/* ---- streaming / dictionary sessions at the hash-chain levels (op 19): LZ4_compress_HC_continue on one LZ4_streamHC_t, blocks laid out contiguously, in a
+ * double buffer or after an LZ4_loadDictHC; the level may change between blocks (3..9); every block is recorded with the history the decoder has (the
+ * last 64 KB of dictionary + previous blocks) and the finders' log ---- */
+static u64 n_sessions, n_stream_blocks, n_loaddict;
+static u8 g_hh[65536 + 8]; static size_t g_hhn;
+static void hh_append(const u8* p, size_t n)
+{
+    if (n >= 65536) { memcpy(g_hh, p + n - 65536, 65536); g_hhn = 65536; return; }
+    if (g_hhn + n > 65536) { size_t drop = g_hhn + n - 65536; memmove(g_hh, g_hh + drop, g_hhn - drop); g_hhn -= drop; }
+    memcpy(g_hh + g_hhn, p, n); g_hhn += n;
+}
+static void hc_session(int thorough)
+{
+    static const int levels[] = {3, 4, 5, 6, 7, 8, 9, 9, 3};
+    size_t A = thorough ? (600u << 10) : (300u << 10); u8* arena = xalloc(A + 16); u8* dbuf[2]; LZ4_streamHC_t* hs = LZ4_createStreamHC(); int nb = 2 + (int)rndn(8), b, level = levels[rndn(9)], geometry = (int)rndn(3); size_t pos = 0, maxb = thorough ? 30000 : 12000;
+    u8* dict = NULL; size_t dn = 0;
+    dbuf[0] = xalloc(maxb + 16); dbuf[1] = xalloc(maxb + 16);
+    LZ4_resetStreamHC_fast(hs, level); g_hhn = 0;
+    if (rndp(40)) { static const size_t dsz[] = {0, 3, 4, 12, 1000, 65535, 65536, 65537, 70000}; dn = rndp(60) ? 16 + rndn(rndp(70) ? 4000 : 66000) : dsz[rndn(9)]; dict = xalloc(dn + 1); gen_data(dict, dn, rndp(50) ? D_LZLIKE : (int)rndn(D_KINDS));
+        LZ4_loadDictHC(hs, (const char*)dict, (int)dn); n_loaddict++; if (dn >= 4) hh_append(dict, dn); /* a dictionary shorter than 4 bytes is ignored */ }
+    for (b = 0; b < nb; b++) {
+        size_t n = rndp(15) ? rndn(16) : rndp(70) ? 20 + rndn(3000) : 20 + rndn((u32)maxb - 20); u8* src; int bound = LZ4_compressBound((int)n), r, d; u8* dst; u8* chk; rec_t rec; size_t k;
+        if (geometry == 0) { if (pos + n > A) break; src = arena + pos; pos += n; }                         /* contiguous */
+        else if (geometry == 1) src = dbuf[b & 1];                                                         /* double buffer */
+        else { if (rndp(50)) { if (pos + n > A) break; src = arena + pos; pos += n; } else { pos += 1 + rndn(5000); if (pos + n > A) break; src = arena + pos; pos += n; } }   /* contiguous runs with gaps */
+        gen_data(src, n, rndp(40) ? D_LZLIKE : (int)rndn(D_KINDS));
+        if (g_hhn >= 16 && n >= 16) { int q, nq = (int)rndn(4); for (q = 0; q < nq; q++) { size_t l = 8 + rndn(200), from = rndn((u32)g_hhn), to; if (l > n) l = n; if (from + l > g_hhn) l = g_hhn - from; to = rndn((u32)(n - l + 1)); memcpy(src + to, g_hh + from, l); } }   /* quotes of the history */
+        if (rndp(20)) { level = levels[rndn(9)]; LZ4_setCompressionLevel(hs, level); }
+        dst = xalloc((size_t)bound + 1); chk = xalloc(n + 1);
+        g_hl_n = 0; g_hl_base = src; g_hl_on = 1;
+        r = LZ4_compress_HC_continue(hs, (const char*)src, (char*)dst, (int)n, bound); n_calls++; n_stream_blocks++;
+        g_hl_on = 0;
+        for (k = 0; k < g_hl_n; k += 7) { if (g_hl[k] == 1) n_best++; else if (g_hl[k] == 2) n_wider++; else n_seq++; }
+        rec_begin(&rec, 19); rec_int(&rec, level); rec_bytes(&rec, g_hh, g_hhn); rec_bytes(&rec, src, n); rec_bytes(&rec, g_hl, g_hl_n * sizeof(int32_t)); rec_int(&rec, r); rec_bytes(&rec, dst, r > 0 ? (size_t)r : 0);
+        cur_set(&rec);
+        if (r <= 0) c_fail(&rec, "continue_failed_at_bound");
+        else { d = LZ4_decompress_safe_usingDict((const char*)dst, (char*)chk, r, (int)n, (const char*)g_hh, (int)g_hhn); if (d != (int)n || (n && memcmp(chk, src, n) != 0)) c_fail(&rec, "block_does_not_decode_against_history"); }
+        cur_clear(); rec_write(&rec);
+        hh_append(src, n);
+        free(dst); free(chk);
+        if (r <= 0) break;
+    }
+    n_sessions++;
+    free(arena); free(dbuf[0]); free(dbuf[1]); free(dict); LZ4_freeStreamHC(hs);
+}
+
 int main(int argc, char** argv)
 {
     const char* mode; int thorough, i; u64 seed; u8* data; size_t maxn;
     static const int levels[] = {3, 4, 5, 6, 7, 8, 9, 9, 3};
     if (argc < 6) { fprintf(stderr, "usage: hc mode tier seed casefile crashfile\n"); return 2; }
-    mode = argv[1]; (void)mode; thorough = !strcmp(argv[2], "thorough"); seed = strtoull(argv[3], 0, 10);
+    mode = argv[1]; thorough = !strcmp(argv[2], "thorough"); seed = strtoull(argv[3], 0, 10);
     harness_init(argv[4], argv[5], seed);
     maxn = thorough ? 120000 : 40000; data = xalloc(maxn + 16);
-    for (i = 0; i < (thorough ? SH(6000) : 500); i++) {
+    if (!strcmp(mode, "c11")) { for (i = 0; i < (thorough ? SH(3000) : 260); i++) hc_session(thorough); }
+    else for (i = 0; i < (thorough ? SH(6000) : 500); i++) {
         size_t n = rndp(20) ? rndn(40) : rndp(60) ? rndn(3000) : rndn((u32)maxn); int kind = rndp(35) ? D_LZLIKE : (int)rndn(D_KINDS);
         gen_data(data, n, kind);
         if (n > 64 && rndp(30)) { size_t a = rndn((u32)n / 2), l = 1 + rndn((u32)(n - a) / 2), k; for (k = 0; k < l; k++) data[a + k] = data[a]; }      /* a run: pattern analysis */
@@ -53,7 +100,7 @@ int main(int argc, char** argv)
         one_case(data, n, levels[rndn(9)]);
     }
     harness_done();
-    stat_u("calls", n_calls); stat_u("hc_sequences_logged", n_seq); stat_u("hc_best_match_answers", n_best); stat_u("hc_wider_match_answers", n_wider); stat_u("records", g_nrecords); stat_u("cfails", (u64)g_cfails);
+    stat_u("calls", n_calls); stat_u("hc_stream_sessions", n_sessions); stat_u("hc_stream_blocks", n_stream_blocks); stat_u("hc_loadDictHC", n_loaddict); stat_u("hc_sequences_logged", n_seq); stat_u("hc_best_match_answers", n_best); stat_u("hc_wider_match_answers", n_wider); stat_u("records", g_nrecords); stat_u("cfails", (u64)g_cfails);
     free(data);
     return g_cfails ? 1 : 0;
 }
